@@ -155,12 +155,19 @@ pub struct VolSpec {
 }
 
 pub fn build(spec: &VolSpec) -> Result<(Vec<u8>, Option<Vec<u32>>), String> {
+    build_with(spec, &|o| o)
+}
+
+/// like `build`, with further format options (media byte, label, ...) applied on top of the geometry
+pub fn build_with(spec: &VolSpec, extra: &dyn Fn(FormatVolumeOptions) -> FormatVolumeOptions) -> Result<(Vec<u8>, Option<Vec<u32>>), String> {
     let mk = || {
-        FormatVolumeOptions::new()
-            .fat_type(spec.fat)
-            .bytes_per_cluster(spec.bps as u32 * spec.spc)
-            .fats(spec.fats)
-            .max_root_dir_entries(spec.root_entries)
+        extra(
+            FormatVolumeOptions::new()
+                .fat_type(spec.fat)
+                .bytes_per_cluster(spec.bps as u32 * spec.spc)
+                .fats(spec.fats)
+                .max_root_dir_entries(spec.root_entries),
+        )
     };
     let want = spec.clusters.unwrap_or(match spec.fat {
         FatType::Fat12 => 20,
@@ -288,7 +295,7 @@ pub fn t32_high() -> Cfg {
     cfg_from(&spec.name, img, Some(c))
 }
 
-fn tiny_spec(fat: FatType) -> VolSpec {
+pub fn tiny_spec(fat: FatType) -> VolSpec {
     match fat {
         FatType::Fat12 => VolSpec {
             name: "t12".into(),
